@@ -9,12 +9,21 @@
 // does not arrive, a want that lingers) are only *suspicions* after the first allowance: the
 // case is then run again on its own with a long allowance and reported only if the suspicion
 // is confirmed there; otherwise the case counts as inconclusive, never as a violation.
+//
+// A case may have a second phase: requests that start only after every earlier request ended
+// and the want-list was seen clean, mostly for CIDs the same node asked for before (requesters
+// never keep a block, so the exchange has to fetch it again). State that a completed or
+// cancelled request leaves behind then shows up as a missing delivery. The want-list is read
+// through all three accessors (GetWantlist = "both want-blocks and want-haves", GetWantBlocks,
+// GetWantHaves); block sizes straddle the 1 KiB limit up to which a server answers a want-have
+// with the block instead of HAVE.
 package c37
 
 import (
 	"context"
 	"encoding/json"
 	"errors"
+	"flag"
 	"fmt"
 	"os"
 	"sort"
@@ -44,7 +53,11 @@ type Req struct {
 	Kind  string `json:"kind"`            // getblock | getblocks | session
 	Keys  []int  `json:"keys"`            // block indices, duplicates allowed (getblock uses Keys[0])
 	Sess  int    `json:"sess,omitempty"`  // session slot on that node (requests with equal slot share a session)
-	Start int    `json:"start,omitempty"` // start delay in ms
+	Start int    `json:"start,omitempty"` // start delay in ms (relative to the start of its phase)
+	// Phase: requests of phase p+1 start only after every request of phase p has ended and the
+	// want-list of the requesters was seen clean (0 = first phase). A later phase is how a case
+	// asks again for a CID whose earlier request completed or was cancelled.
+	Phase int `json:"phase,omitempty"`
 	// Cancel: -1 never (the harness cancels only once everything available has arrived);
 	// k >= 0: cancel the request context after k blocks were received (0: after CancelMs).
 	Cancel   int `json:"cancel"`
@@ -94,7 +107,7 @@ func gen(t *rapid.T) Case {
 		}
 	}
 	for i := 0; i < nb; i++ {
-		c.Sizes = append(c.Sizes, rapid.SampledFrom([]int{8, 16, 40, 300, 2000}).Draw(t, "size"))
+		c.Sizes = append(c.Sizes, rapid.SampledFrom(sizePool).Draw(t, "size"))
 		var pl []int
 		if len(holders) > 0 && rapid.IntRange(0, 7).Draw(t, "unavailable") != 0 {
 			k := rapid.IntRange(1, len(holders)).Draw(t, "nhold")
@@ -133,8 +146,53 @@ func gen(t *rapid.T) Case {
 		}
 		c.Reqs = append(c.Reqs, q)
 	}
+	// second phase (half of the cases): one or two requests that start after all of the above
+	// ended, on a node that already requested something, mostly for keys that node asked for
+	// before (it never keeps a block, so the exchange has to fetch it again)
+	if rapid.IntRange(0, 1).Draw(t, "twophase") == 0 {
+		first := len(c.Reqs)
+		n2 := rapid.SampledFrom([]int{1, 1, 2}).Draw(t, "nreq2")
+		for r := 0; r < n2; r++ {
+			q := Req{Phase: 1, Node: c.Reqs[rapid.IntRange(0, first-1).Draw(t, "rnode2")].Node}
+			var before []int
+			for _, p := range c.Reqs[:first] {
+				if p.Node == q.Node {
+					before = append(before, p.Keys...)
+				}
+			}
+			q.Kind = rapid.SampledFrom([]string{"getblock", "getblocks", "getblocks", "session", "session"}).Draw(t, "kind2")
+			nk := rapid.IntRange(1, 4).Draw(t, "nkeys2")
+			if q.Kind == "getblock" {
+				nk = 1
+			}
+			for k := 0; k < nk; k++ {
+				if rapid.IntRange(0, 3).Draw(t, "fresh") == 0 {
+					q.Keys = append(q.Keys, rapid.IntRange(0, nb-1).Draw(t, "key2"))
+				} else {
+					q.Keys = append(q.Keys, rapid.SampledFrom(before).Draw(t, "again"))
+				}
+			}
+			q.Sess = rapid.IntRange(0, 1).Draw(t, "sess2")
+			q.Start = rapid.SampledFrom([]int{0, 0, 0, 1, 3}).Draw(t, "start2")
+			q.Cancel = -1
+			if rapid.IntRange(0, 3).Draw(t, "docancel2") == 0 {
+				q.Cancel = rapid.IntRange(0, len(q.Keys)).Draw(t, "cancelafter2")
+				if q.Cancel == 0 {
+					q.CancelMs = rapid.SampledFrom([]int{0, 1, 5, 20}).Draw(t, "cancelms2")
+				}
+			}
+			c.Reqs = append(c.Reqs, q)
+		}
+	}
 	return c
 }
+
+// block sizes: the server answers a want-have for a block of at most 1024 bytes with the block
+// itself and for a bigger one with HAVE (the client then sends a want-block), so both sides
+// of that boundary are drawn
+var sizePool = []int{8, 16, 40, 300, 1024, 1025, 2000, 2000, 5000}
+
+const maxPhase = 3
 
 // ---------------------------------------------------------------------------
 // one attempt
@@ -145,6 +203,9 @@ type outcome struct {
 	// the suspicion is a lingering want and every lingering block had been delivered to every
 	// request that asked for it
 	lingerOnlyDelivered bool
+	// ... and every lingering CID was (also) reported by GetWantlist(), sampled after
+	// GetWantBlocks() / GetWantHaves()
+	lingerAllInWantlist bool
 	missingReq          int // index of the request with a missing delivery, else -1
 	nt                  bool
 	classes             []string
@@ -155,7 +216,7 @@ func valid(c Case) bool {
 		return false
 	}
 	for _, q := range c.Reqs {
-		if q.Node < 0 || q.Node >= c.Nodes || len(q.Keys) == 0 {
+		if q.Node < 0 || q.Node >= c.Nodes || len(q.Keys) == 0 || q.Phase < 0 || q.Phase > maxPhase {
 			return false
 		}
 		for _, k := range q.Keys {
@@ -272,214 +333,279 @@ func attempt(c Case, allowance time.Duration) outcome {
 		}
 	}
 	start := time.Now()
-	var wg sync.WaitGroup
-	for ri, q := range c.Reqs {
-		wg.Add(1)
-		go func(ri int, q Req) {
-			defer wg.Done()
-			if q.Start > 0 {
-				time.Sleep(time.Duration(q.Start) * time.Millisecond)
-			}
-			want := map[int]bool{}  // distinct requested
-			avail := map[int]bool{} // of these, held by some node
-			got := map[int]bool{}
-			var keys []cid.Cid
-			for _, k := range q.Keys {
-				want[k] = true
-				if len(c.Place[k]) > 0 {
-					avail[k] = true
-				}
-				keys = append(keys, blks[k].Cid())
-			}
-			ctx, cancel := context.WithCancel(root)
-			defer cancel()
-			defer noteEnd(q.Node, want, got)
-			check := func(b blocks.Block) bool {
-				i, ok := index[b.Cid()]
-				if !ok || !want[i] {
-					setViolation("request %d (%s on node %d) received block %s which it did not request", ri, q.Kind, q.Node, b.Cid())
-					return false
-				}
-				if got[i] {
-					setViolation("request %d (%s on node %d) received block %d twice", ri, q.Kind, q.Node, i)
-					return false
-				}
-				got[i] = true
-				if !kit.Verify(b.Cid(), b.RawData()) || string(b.RawData()) != string(blks[i].RawData()) {
-					setViolation("request %d (%s on node %d) received wrong bytes for block %d", ri, q.Kind, q.Node, i)
-					return false
-				}
-				return true
-			}
-
-			if q.Kind == "getblock" {
-				if q.Cancel >= 0 {
-					go func() {
-						select {
-						case <-time.After(time.Duration(q.CancelMs) * time.Millisecond):
-							cancel()
-						case <-ctx.Done():
-						}
-					}()
-				} else if !avail[q.Keys[0]] {
-					// nobody has it: give up after a while (this is the "cancel with the want outstanding" path)
-					go func() {
-						select {
-						case <-time.After(30 * time.Millisecond):
-							cancel()
-						case <-ctx.Done():
-						}
-					}()
-				}
-				done := make(chan struct{})
-				var b blocks.Block
-				var err error
-				go func() {
-					defer close(done)
-					b, err = insts[q.Node].Exchange.GetBlock(ctx, keys[0])
-				}()
-				select {
-				case <-done:
-				case <-time.After(allowance):
-					if q.Cancel < 0 && avail[q.Keys[0]] {
-						setSuspect("request %d: GetBlock(%d) on node %d did not return within %v although node(s) %v hold the block", ri, q.Keys[0], q.Node, allowance, c.Place[q.Keys[0]])
-					} else {
-						setSuspect("request %d: GetBlock(%d) on node %d did not return within %v after its context was cancelled", ri, q.Keys[0], q.Node, allowance)
-					}
-					cancel()
-					<-done
-					return
-				}
-				if err == nil {
-					if b == nil {
-						setViolation("request %d: GetBlock returned neither block nor error", ri)
-						return
-					}
-					check(b)
-				} else if q.Cancel < 0 && avail[q.Keys[0]] {
-					setViolation("request %d: GetBlock(%d) on node %d failed with %v although its context is live and node(s) %v hold the block", ri, q.Keys[0], q.Node, err, c.Place[q.Keys[0]])
-				} else if !errors.Is(err, context.Canceled) {
-					setViolation("request %d: GetBlock(%d) after cancellation returned %v, want context.Canceled", ri, q.Keys[0], err)
-				}
-				return
-			}
-
-			var ch <-chan blocks.Block
-			var err error
-			if q.Kind == "session" {
-				ch, err = sessions[sessKey{q.Node, q.Sess}].GetBlocks(ctx, keys)
-			} else {
-				ch, err = insts[q.Node].Exchange.GetBlocks(ctx, keys)
-			}
-			if err != nil {
-				setViolation("request %d: GetBlocks failed: %v", ri, err)
-				return
-			}
-			cancelled := false
-			doCancel := func() {
-				if !cancelled {
-					cancelled = true
-					cancel()
-				}
-			}
-			var cancelTimer <-chan time.Time
-			if q.Cancel == 0 {
-				cancelTimer = time.After(time.Duration(q.CancelMs) * time.Millisecond)
-			}
-			deadline := time.After(allowance)
-			n := 0
-			for {
-				// everything that can arrive has arrived but some keys are held by nobody:
-				// the request can only end by cancellation
-				if !cancelled && len(got) == len(avail) && len(avail) < len(want) {
-					if cancelTimer == nil {
-						cancelTimer = time.After(5 * time.Millisecond)
-					}
-				}
-				select {
-				case b, ok := <-ch:
-					if !ok {
-						if !cancelled && len(got) < len(want) {
-							setViolation("request %d (%s on node %d): channel closed after %d of %d distinct blocks although the context is live", ri, q.Kind, q.Node, len(got), len(want))
-						}
-						return
-					}
-					if !check(b) {
-						doCancel()
-						return
-					}
-					n++
-					if q.Cancel > 0 && n >= q.Cancel {
-						doCancel()
-					}
-				case <-cancelTimer:
-					cancelTimer = nil
-					doCancel()
-				case <-deadline:
-					if cancelled {
-						setSuspect("request %d (%s on node %d): channel not closed %v after the context was cancelled", ri, q.Kind, q.Node, allowance)
-					} else {
-						var missing []int
-						for k := range avail {
-							if !got[k] {
-								missing = append(missing, k)
-							}
-						}
-						sort.Ints(missing)
-						setSuspect("request %d (%s on node %d): blocks %v not delivered within %v although connected nodes hold them", ri, q.Kind, q.Node, missing, allowance)
-						mu.Lock()
-						if o.missingReq < 0 {
-							o.missingReq = ri
-						}
-						mu.Unlock()
-					}
-					doCancel()
-					return
-				}
-			}
-		}(ri, q)
+	lastPhase := 0
+	for _, q := range c.Reqs {
+		if q.Phase > lastPhase {
+			lastPhase = q.Phase
+		}
 	}
-	wg.Wait()
-	mu.Lock()
-	bad := o.violation != "" || o.suspect != ""
-	mu.Unlock()
+	asked := map[int]map[cid.Cid]int{} // per node: CIDs asked for in the phases run so far
+	runReq := func(ri int, q Req) {
+		if q.Start > 0 {
+			time.Sleep(time.Duration(q.Start) * time.Millisecond)
+		}
+		want := map[int]bool{}  // distinct requested
+		avail := map[int]bool{} // of these, held by some node
+		got := map[int]bool{}
+		var keys []cid.Cid
+		for _, k := range q.Keys {
+			want[k] = true
+			if len(c.Place[k]) > 0 {
+				avail[k] = true
+			}
+			keys = append(keys, blks[k].Cid())
+		}
+		ctx, cancel := context.WithCancel(root)
+		defer cancel()
+		defer noteEnd(q.Node, want, got)
+		check := func(b blocks.Block) bool {
+			i, ok := index[b.Cid()]
+			if !ok || !want[i] {
+				setViolation("request %d (%s on node %d) received block %s which it did not request", ri, q.Kind, q.Node, b.Cid())
+				return false
+			}
+			if got[i] {
+				setViolation("request %d (%s on node %d) received block %d twice", ri, q.Kind, q.Node, i)
+				return false
+			}
+			got[i] = true
+			if !kit.Verify(b.Cid(), b.RawData()) || string(b.RawData()) != string(blks[i].RawData()) {
+				setViolation("request %d (%s on node %d) received wrong bytes for block %d", ri, q.Kind, q.Node, i)
+				return false
+			}
+			return true
+		}
 
-	// want-list cleanup: all requests are over, so none of their CIDs may stay on the requester's list
-	if !bad {
-		asked := map[int]map[cid.Cid]int{}
+		if q.Kind == "getblock" {
+			if q.Cancel >= 0 {
+				go func() {
+					select {
+					case <-time.After(time.Duration(q.CancelMs) * time.Millisecond):
+						cancel()
+					case <-ctx.Done():
+					}
+				}()
+			} else if !avail[q.Keys[0]] {
+				// nobody has it: give up after a while (this is the "cancel with the want outstanding" path)
+				go func() {
+					select {
+					case <-time.After(30 * time.Millisecond):
+						cancel()
+					case <-ctx.Done():
+					}
+				}()
+			}
+			done := make(chan struct{})
+			var b blocks.Block
+			var err error
+			go func() {
+				defer close(done)
+				b, err = insts[q.Node].Exchange.GetBlock(ctx, keys[0])
+			}()
+			select {
+			case <-done:
+			case <-time.After(allowance):
+				if q.Cancel < 0 && avail[q.Keys[0]] {
+					setSuspect("request %d: GetBlock(%d) on node %d did not return within %v although node(s) %v hold the block", ri, q.Keys[0], q.Node, allowance, c.Place[q.Keys[0]])
+				} else {
+					setSuspect("request %d: GetBlock(%d) on node %d did not return within %v after its context was cancelled", ri, q.Keys[0], q.Node, allowance)
+				}
+				cancel()
+				<-done
+				return
+			}
+			if err == nil {
+				if b == nil {
+					setViolation("request %d: GetBlock returned neither block nor error", ri)
+					return
+				}
+				check(b)
+			} else if q.Cancel < 0 && avail[q.Keys[0]] {
+				setViolation("request %d: GetBlock(%d) on node %d failed with %v although its context is live and node(s) %v hold the block", ri, q.Keys[0], q.Node, err, c.Place[q.Keys[0]])
+			} else if !errors.Is(err, context.Canceled) {
+				setViolation("request %d: GetBlock(%d) after cancellation returned %v, want context.Canceled", ri, q.Keys[0], err)
+			}
+			return
+		}
+
+		var ch <-chan blocks.Block
+		var err error
+		if q.Kind == "session" {
+			ch, err = sessions[sessKey{q.Node, q.Sess}].GetBlocks(ctx, keys)
+		} else {
+			ch, err = insts[q.Node].Exchange.GetBlocks(ctx, keys)
+		}
+		if err != nil {
+			setViolation("request %d: GetBlocks failed: %v", ri, err)
+			return
+		}
+		cancelled := false
+		doCancel := func() {
+			if !cancelled {
+				cancelled = true
+				cancel()
+			}
+		}
+		var cancelTimer <-chan time.Time
+		if q.Cancel == 0 {
+			cancelTimer = time.After(time.Duration(q.CancelMs) * time.Millisecond)
+		}
+		deadline := time.After(allowance)
+		n := 0
+		for {
+			// everything that can arrive has arrived but some keys are held by nobody:
+			// the request can only end by cancellation
+			if !cancelled && len(got) == len(avail) && len(avail) < len(want) {
+				if cancelTimer == nil {
+					cancelTimer = time.After(5 * time.Millisecond)
+				}
+			}
+			select {
+			case b, ok := <-ch:
+				if !ok {
+					if !cancelled && len(got) < len(want) {
+						setViolation("request %d (%s on node %d): channel closed after %d of %d distinct blocks although the context is live", ri, q.Kind, q.Node, len(got), len(want))
+					}
+					return
+				}
+				if !check(b) {
+					doCancel()
+					return
+				}
+				n++
+				if q.Cancel > 0 && n >= q.Cancel {
+					doCancel()
+				}
+			case <-cancelTimer:
+				cancelTimer = nil
+				doCancel()
+			case <-deadline:
+				if cancelled {
+					setSuspect("request %d (%s on node %d): channel not closed %v after the context was cancelled", ri, q.Kind, q.Node, allowance)
+				} else {
+					var missing []int
+					for k := range avail {
+						if !got[k] {
+							missing = append(missing, k)
+						}
+					}
+					sort.Ints(missing)
+					setSuspect("request %d (%s on node %d): blocks %v not delivered within %v although connected nodes hold them", ri, q.Kind, q.Node, missing, allowance)
+					mu.Lock()
+					if o.missingReq < 0 {
+						o.missingReq = ri
+					}
+					mu.Unlock()
+				}
+				doCancel()
+				return
+			}
+		}
+	}
+	for phase := 0; phase <= lastPhase; phase++ {
+		var wg sync.WaitGroup
+		mu.Lock()
 		for _, q := range c.Reqs {
+			if q.Phase != phase {
+				continue
+			}
 			if asked[q.Node] == nil {
 				asked[q.Node] = map[cid.Cid]int{}
 			}
 			for _, k := range q.Keys {
 				asked[q.Node][blks[k].Cid()] = k
+				// "outstanding" describes the latest phase in which the node asked for the block
+				delete(outstanding[q.Node], k)
 			}
 		}
-		lingering := func() (int, []int) {
-			for node, m := range asked {
-				var l []int
+		mu.Unlock()
+		for ri, q := range c.Reqs {
+			if q.Phase != phase {
+				continue
+			}
+			wg.Add(1)
+			go func(ri int, q Req) {
+				defer wg.Done()
+				runReq(ri, q)
+			}(ri, q)
+		}
+		wg.Wait()
+		mu.Lock()
+		bad := o.violation != "" || o.suspect != ""
+		mu.Unlock()
+		if bad {
+			break
+		}
+
+		// want-list cleanup: all requests so far are over, so none of their CIDs may stay on the
+		// requester's want-list. "GetWantlist returns the current local wantlist (both want-blocks
+		// and want-haves)", GetWantBlocks / GetWantHaves return the two parts: a CID reported by any
+		// of the three is still on the want-list. GetWantlist is sampled last, so a want seen only
+		// by one of the other two either was retracted in between or the views disagree.
+		lingering := func() (int, []int, []int) {
+			nodes := make([]int, 0, len(asked))
+			for node := range asked {
+				nodes = append(nodes, node)
+			}
+			sort.Ints(nodes)
+			for _, node := range nodes {
+				m := asked[node]
+				part := map[int]bool{}
+				if !devWantlistOnly {
+					for _, k := range insts[node].Exchange.GetWantBlocks() {
+						if i, ok := m[k]; ok {
+							part[i] = true
+						}
+					}
+					for _, k := range insts[node].Exchange.GetWantHaves() {
+						if i, ok := m[k]; ok {
+							part[i] = true
+						}
+					}
+				}
+				whole := map[int]bool{}
 				for _, k := range insts[node].Exchange.GetWantlist() {
 					if i, ok := m[k]; ok {
+						whole[i] = true
+					}
+				}
+				var l, notInWhole []int
+				for i := range part {
+					if !whole[i] {
+						notInWhole = append(notInWhole, i)
 						l = append(l, i)
 					}
 				}
+				for i := range whole {
+					l = append(l, i)
+				}
 				if len(l) > 0 {
 					sort.Ints(l)
-					return node, l
+					sort.Ints(notInWhole)
+					return node, l, notInWhole
 				}
 			}
-			return -1, nil
+			return -1, nil, nil
 		}
 		cleanup := allowance
 		if cleanup > cleanupFirst && allowance == firstAllowance {
 			cleanup = cleanupFirst // local bookkeeping only; the confirmation run uses the long allowance
 		}
 		until := time.Now().Add(cleanup)
+		clean := 0
 		for {
-			node, l := lingering()
+			node, l, notInWhole := lingering()
 			if node < 0 {
-				break
+				// before a further phase starts the list has to be seen clean three times in a row
+				// (work left over from the ended requests should not run into the next phase)
+				clean++
+				if phase == lastPhase || clean >= 3 {
+					break
+				}
+				time.Sleep(2 * time.Millisecond)
+				continue
 			}
+			clean = 0
 			if time.Now().After(until) {
 				var deliv, outst []int
 				for _, k := range l {
@@ -489,13 +615,24 @@ func attempt(c Case, allowance time.Duration) outcome {
 						deliv = append(deliv, k)
 					}
 				}
-				setSuspect("want-list of node %d still holds blocks %v %v after all its requests completed or were cancelled (delivered to every asker: %v; outstanding at a cancellation: %v)", node, l, cleanup, deliv, outst)
+				where := "reported by GetWantlist()"
+				if len(notInWhole) > 0 {
+					where = fmt.Sprintf("blocks %v reported by GetWantBlocks()/GetWantHaves() only, not by GetWantlist()", notInWhole)
+				}
+				setSuspect("want-list of node %d still holds blocks %v %v after all its requests (phases 0..%d) completed or were cancelled (%s; delivered to every asker: %v; outstanding at a cancellation: %v)", node, l, cleanup, phase, where, deliv, outst)
 				mu.Lock()
 				o.lingerOnlyDelivered = len(outst) == 0
+				o.lingerAllInWantlist = len(notInWhole) == 0
 				mu.Unlock()
 				break
 			}
 			time.Sleep(2 * time.Millisecond)
+		}
+		mu.Lock()
+		bad = o.suspect != ""
+		mu.Unlock()
+		if bad {
+			break
 		}
 	}
 	for _, cancel := range sessCancel {
@@ -505,10 +642,26 @@ func attempt(c Case, allowance time.Duration) outcome {
 	bg.Wait()
 
 	// classes / non-trivial rule
-	overlap := false
+	overlap, repeat, repeatBig := false, false, false
 	for i := range c.Reqs {
 		for j := i + 1; j < len(c.Reqs); j++ {
 			if c.Reqs[i].Node != c.Reqs[j].Node {
+				continue
+			}
+			if c.Reqs[i].Phase != c.Reqs[j].Phase {
+				// the same node asks again for a CID after its earlier request ended
+				a := map[int]bool{}
+				for _, k := range c.Reqs[i].Keys {
+					a[k] = true
+				}
+				for _, k := range c.Reqs[j].Keys {
+					if a[k] {
+						repeat = true
+						if c.Sizes[k] > 1024 && len(c.Place[k]) > 0 {
+							repeatBig = true
+						}
+					}
+				}
 				continue
 			}
 			a := map[int]bool{}
@@ -540,6 +693,27 @@ func attempt(c Case, allowance time.Duration) outcome {
 	if overlap {
 		o.classes = append(o.classes, "overlapping-requests")
 	}
+	if repeat {
+		o.classes = append(o.classes, "same-cid-requested-again-after-completion")
+	}
+	if repeatBig {
+		o.classes = append(o.classes, "same-cid-requested-again-after-completion:>1KiB")
+	}
+	if lastPhase > 0 {
+		o.classes = append(o.classes, "two-phases")
+	}
+	for _, q := range c.Reqs {
+		big := false
+		for _, k := range q.Keys {
+			if c.Sizes[k] > 1024 && len(c.Place[k]) > 0 {
+				big = true
+			}
+		}
+		if big {
+			o.classes = append(o.classes, "requested-block>1KiB(HAVE-then-want-block)")
+			break
+		}
+	}
 	if cancelOutstanding {
 		o.classes = append(o.classes, "cancel-with-wants-outstanding")
 	}
@@ -547,7 +721,7 @@ func attempt(c Case, allowance time.Duration) outcome {
 	if time.Since(start) > 2*time.Second {
 		o.classes = append(o.classes, "slow(>2s)")
 	}
-	o.nt = overlap || cancelOutstanding
+	o.nt = overlap || cancelOutstanding || repeat
 	return o
 }
 
@@ -556,6 +730,9 @@ var (
 	cleanupFirst     = 4 * time.Second
 	confirmAllowance = 60 * time.Second
 )
+
+// development aid (bite tests of the second phase only): poll GetWantlist() alone
+var devWantlistOnly = os.Getenv("VERIF_C37_DEV_WANTLIST_ONLY") == "1"
 
 func init() {
 	// development aid: shorter / longer allowances
@@ -584,7 +761,7 @@ func run(c Case) kit.Result {
 	if o.missingReq >= 0 && sameSessionOverlapCancelled(c, o.missingReq) && kit.OpenFinding("C37", keySameSession) {
 		return kit.Result{Err: errors.New(o.suspect), Known: keySameSession}
 	}
-	if o.lingerOnlyDelivered && kit.OpenFinding("C37", keyLateWant) {
+	if o.lingerOnlyDelivered && o.lingerAllInWantlist && kit.OpenFinding("C37", keyLateWant) {
 		return kit.Result{Err: errors.New(o.suspect), Known: keyLateWant}
 	}
 	// timing-dependent suspicion: run the case again on its own with a long allowance
@@ -602,7 +779,7 @@ func run(c Case) kit.Result {
 		switch {
 		case o2.missingReq >= 0 && sameSessionOverlapCancelled(c, o2.missingReq):
 			res.Known = keySameSession
-		case o2.lingerOnlyDelivered:
+		case o2.lingerOnlyDelivered && o2.lingerAllInWantlist:
 			res.Known = keyLateWant
 		}
 		return res
@@ -615,12 +792,16 @@ const (
 	// session drops the want for the common key although the other call still waits for it
 	keySameSession = "same-session-overlap-cancel-starves"
 	// a want sent to a peer after the block arrived (and its cancel went out) is never
-	// retracted: the CID stays on the want-list although every request got the block
+	// retracted: the CID stays on the want-list although every request got the block. Such a
+	// want is recorded in the peer's want set and in the CID -> peers index alike, so GetWantlist()
+	// reports it too; a CID that only GetWantBlocks()/GetWantHaves() report is not explained by
+	// this finding.
 	keyLateWant = "want-relisted-after-delivery"
 )
 
-// sameSessionOverlapCancelled: request ri shares its session and at least one key with a
-// request that ends by cancellation (own cancel point, or keys nobody holds).
+// sameSessionOverlapCancelled: request ri shares its session, its phase (the calls are
+// concurrent) and at least one key with a request that ends by cancellation (own cancel point,
+// or keys nobody holds).
 func sameSessionOverlapCancelled(c Case, ri int) bool {
 	q := c.Reqs[ri]
 	if q.Kind != "session" {
@@ -631,7 +812,7 @@ func sameSessionOverlapCancelled(c Case, ri int) bool {
 		mine[k] = true
 	}
 	for j, r := range c.Reqs {
-		if j == ri || r.Kind != "session" || r.Node != q.Node || r.Sess != q.Sess {
+		if j == ri || r.Kind != "session" || r.Node != q.Node || r.Sess != q.Sess || r.Phase != q.Phase {
 			continue
 		}
 		cancels := r.Cancel >= 0
@@ -666,9 +847,14 @@ func dedup(in []string) []string {
 
 var spec = kit.Spec[Case]{
 	Prop: "C37", Name: "main",
-	Rule:  "2-6 in-memory bitswap nodes on a VirtualNetwork (latency 0-3 ms), random block placement (some blocks held by nobody, some stored late), 1-3 concurrent requests (GetBlock, GetBlocks with duplicate keys, session GetBlocks, shared sessions, overlapping key sets, start delays), cancellation after a generated number of received blocks / delay; per-channel oracle and polled want-list cleanup; non-trivial = overlapping concurrent requests on one node or a cancellation with wants still outstanding",
-	Quick: 120, Thorough: 400,
+	Rule:  "2-6 in-memory bitswap nodes on a VirtualNetwork (latency 0-3 ms), random block placement (some blocks held by nobody, some stored late), 1-3 concurrent requests (GetBlock, GetBlocks with duplicate keys, session GetBlocks, shared sessions, overlapping key sets, start delays), cancellation after a generated number of received blocks / delay; block sizes on both sides of the 1 KiB HAVE/block boundary; in half of the cases a second phase of 1-2 requests that starts after all earlier requests ended, mostly for CIDs the node asked for before; per-channel oracle and want-list cleanup polled after every phase through GetWantlist, GetWantBlocks and GetWantHaves; non-trivial = overlapping concurrent requests on one node, a cancellation with wants still outstanding, or a CID requested again after its earlier request ended",
+	Quick: 100, Thorough: 400,
 	Gen: gen, Run: run, Journal: true,
 }
 
-func TestProp(t *testing.T) { kit.All(t, spec) }
+func TestProp(t *testing.T) {
+	// a confirmed liveness / cleanup failure costs up to the long allowance per execution, so
+	// keep the minimisation of a failing case short
+	flag.Set("rapid.shrinktime", "10s")
+	kit.All(t, spec)
+}
